@@ -62,6 +62,12 @@ def _flattens_edge_major(fn: ast.AST, c: ast.Call) -> bool:
 def _grid_is_xy(g: Optional[ast.AST], xv: str, yv: str) -> bool:
     """g is  stack((X, Y), dim=-1)  where X / Y are the meshgrid components that hold the values of xv along the columns /
     of yv along the rows: meshgrid(yv, xv, indexing="ij") -> (Y, X);  meshgrid(xv, yv, indexing="xy") -> (X, Y)."""
+    if isinstance(g, ast.Call) and norm(g.func).split(".")[-1] == "stack" and g.args and isinstance(g.args[0], ast.Call) and norm(g.args[0].func).split(".")[-1] == "meshgrid" \
+            and len(g.args[0].args) == 2:
+        # stack(meshgrid(a, b, ...)) stacks the two components in order
+        m = g.args[0]
+        g = ast.Call(func=g.func, args=[ast.Tuple(elts=[ast.Subscript(value=m, slice=ast.Constant(value=k), ctx=ast.Load()) for k in (0, 1)], ctx=ast.Load())] + list(g.args[1:]),
+                     keywords=g.keywords)
     if not (isinstance(g, ast.Call) and norm(g.func).split(".")[-1] == "stack" and g.args and isinstance(g.args[0], (ast.Tuple, ast.List)) and len(g.args[0].elts) == 2):
         return False
     dim = astq.const_value(astq.call_arg(g, 1, "dim")) if astq.call_arg(g, 1, "dim") is not None else 0
